@@ -137,7 +137,10 @@ fn emit_system(ctx: &mut Ctx, id: u64, tasks: &[Value], family: &str, variant: &
     let total_cap: u64 = ts.iter().map(|t| u(&t["cap"]) - 1).sum();
     let hist_states: f64 = ts.iter().map(|t| (u(&t["C"]) as f64).powf(us(&t["w"]).len().saturating_sub(1) as f64)).product();
     let est = crate::drivers::ros2sys::state_estimate(&ts, &supply) * (ts.iter().map(|t| u(&t["C"])).sum::<u64>() as f64) * hist_states;
-    if claims.iter().any(|r| *r > rmax) || total_cap > backlog || est > budget {
+    // hand-picked small systems are explored whatever the library claims for them (a change that inflates their
+    // bounds must not make them disappear from the batch); a generous absolute ceiling still protects the run
+    let forced = tasks[0].get("force").is_some() && claims.iter().all(|r| *r <= 2 * rmax) && total_cap <= 2 * backlog;
+    if !forced && (claims.iter().any(|r| *r > rmax) || total_cap > backlog || est > budget) {
         return;
     }
     let nontrivial = (0..n).any(|i| claims[i] > u(&tasks[i]["C"]) as i64);
@@ -212,6 +215,18 @@ pub fn run(ctx: &mut Ctx) {
                         ]);
                     }
                 }
+            }
+        }
+    }
+    if exact_only {
+        // tightness runs: release jitter of exactly two and three periods (bursts of three / four jobs), where an
+        // over-count by one job is still a safe bound but is no longer attained
+        for (t1, k) in [(2u64, 2u64), (3, 2), (2, 3)] {
+            for c2 in 1..=2u64 {
+                core.push(vec![
+                    json!({"a": {"k": "sporadic", "T": t1, "J": k * t1}, "C": 1, "prio": 1, "D": t1 + 1, "segs": [1], "fl": 1, "w": [], "force": true}),
+                    json!({"a": {"k": "sporadic", "T": 9, "J": 0}, "C": c2, "prio": 2, "D": 9, "segs": [c2], "fl": 1, "w": []}),
+                ]);
             }
         }
     }
